@@ -452,9 +452,13 @@ def compute_integral_ir(
 
             restrictions = [i.restriction for i in initial_terminals.values()]
             if not needs_facet_permutations:
+                # The kernel indexes every table that kept its permutation axis by
+                # quadrature_permutation, so the flag must be set whenever one is used.
                 needs_facet_permutations = (
-                    "+" in restrictions and "-" in restrictions
-                ) or is_mixed_dim
+                    ("+" in restrictions and "-" in restrictions)
+                    or is_mixed_dim
+                    or any(table.shape[0] > 1 for table in active_tables.values())
+                )
 
     return IntermediateIntegralIR(
         needs_facet_permutations=needs_facet_permutations,
